@@ -278,6 +278,18 @@ impl<'ast, 'res> Resolver<'ast, 'res> {
                 }
                 self.check_expr(expr);
                 self.set_stmt_expr_class(self.classify_expr(expr));
+                // A variable holds whatever was assigned last, so a value of another
+                // type leaves its static type unknown from here on
+                let assigned = self.infer_expr_type(expr).unwrap_or(ValueType::Dynamic);
+                if let Some(slot) = self
+                    .variable_scopes
+                    .iter_mut()
+                    .rev()
+                    .find_map(|scope| scope.iter_mut().rev().find(|(name, ..)| *name == *var))
+                    && slot.1 != assigned
+                {
+                    slot.1 = ValueType::Dynamic;
+                }
             }
             Stmt::AssignIndex { target, expr, .. } => {
                 self.check_assign_index(target, expr);
